@@ -15,6 +15,10 @@ pub enum Stmt {
     CallG,
     CallClosure,
     Rec(u8),
+    /// raise a signal on itself (10 = SIGUSR1, 12 = SIGUSR2, 14 = SIGALRM)
+    Raise(u8),
+    /// block USR1+USR2, raise both, unblock (two signals pending at once)
+    RaiseBurst,
 }
 
 impl Stmt {
@@ -27,6 +31,8 @@ impl Stmt {
             Stmt::CallG => "g".into(),
             Stmt::CallClosure => "c".into(),
             Stmt::Rec(n) => format!("r{n}"),
+            Stmt::Raise(n) => format!("s{n}"),
+            Stmt::RaiseBurst => "sb".into(),
         }
     }
 }
@@ -169,6 +175,62 @@ fn emit(v: u64) {
 }
 "#;
 
+const SIGNAL_PRELUDE: &str = r#"core::arch::global_asm!(
+    ".globl sig_restorer",
+    "sig_restorer:",
+    "mov eax, 15",
+    "syscall",
+);
+unsafe extern "C" {
+    fn sig_restorer();
+}
+#[inline(never)]
+fn sys3(n: isize, a: isize, b: isize, c: isize, d: isize) -> isize {
+    let r: isize;
+    unsafe {
+        core::arch::asm!("syscall", inlateout("rax") n => r, in("rdi") a, in("rsi") b, in("rdx") c, in("r10") d, out("rcx") _, out("r11") _, options(nostack));
+    }
+    r
+}
+pub static mut HITS: [u64; 32] = [0; 32];
+extern "C" fn on_sig(s: i32) {
+    unsafe {
+        let p = (&raw mut HITS) as *mut u64;
+        let slot = p.add((s & 31) as usize);
+        core::ptr::write_volatile(slot, core::ptr::read_volatile(slot) + 1);
+    }
+}
+#[repr(C)]
+struct KSigaction {
+    handler: usize,
+    flags: u64,
+    restorer: usize,
+    mask: u64,
+}
+#[inline(never)]
+fn install(sig: i32) {
+    let sa = KSigaction { handler: on_sig as usize, flags: 0x04000000, restorer: sig_restorer as usize, mask: 0 };
+    sys3(13, sig as isize, &sa as *const _ as isize, 0, 8);
+}
+#[inline(never)]
+fn raise(sig: i32) {
+    let pid = sys3(39, 0, 0, 0, 0);
+    sys3(62, pid, sig as isize, 0, 0);
+}
+#[inline(never)]
+fn sigmask(how: isize, set: u64) {
+    let m = set;
+    sys3(14, how, &m as *const _ as isize, 0, 8);
+}
+#[inline(never)]
+fn hits() -> u64 {
+    unsafe {
+        let p = (&raw const HITS) as *const u64;
+        core::ptr::read_volatile(p.add(10)) * 10000 + core::ptr::read_volatile(p.add(12)) * 100 + core::ptr::read_volatile(p.add(14))
+    }
+}
+"#;
+
 struct Src {
     text: String,
     line: u32,
@@ -199,6 +261,11 @@ pub fn generate(name: &str, body: &[Stmt]) -> Program {
     let mut s = Src::new();
     let mut functions = vec!["main".to_string(), "emit".to_string()];
     let needs = |f: fn(&Stmt) -> bool| body.iter().any(f);
+    let signals = needs(|s| matches!(s, Stmt::Raise(_) | Stmt::RaiseBurst));
+    if signals {
+        s.raw(SIGNAL_PRELUDE);
+        functions.extend(["raise".to_string(), "on_sig".to_string()]);
+    }
     if needs(|s| matches!(s, Stmt::CallF)) {
         s.l("#[inline(never)]", None);
         s.l("fn ff(x: u64) -> u64 {", None);
@@ -232,6 +299,11 @@ pub fn generate(name: &str, body: &[Stmt]) -> Program {
     s.l("#[unsafe(no_mangle)]", None);
     s.l("pub extern \"C\" fn main(_argc: i32, _argv: *const *const u8) -> i32 {", None);
     s.l("    let mut a: u64 = unsafe { core::ptr::read_volatile(&raw const ACC) };", Some("main.init"));
+    if signals {
+        s.l("    install(10);", Some("main.install"));
+        s.l("    install(12);", None);
+        s.l("    install(14);", None);
+    }
     for (k, st) in body.iter().enumerate() {
         let m = |x: &str| format!("s{k}.{x}");
         match st {
@@ -270,7 +342,22 @@ pub fn generate(name: &str, body: &[Stmt]) -> Program {
             Stmt::Rec(n) => {
                 s.l(&format!("    a += rec({n});"), Some(&m("callrec")));
             }
+            Stmt::Raise(sig) => {
+                s.l("    a += 1;", Some(&m("pre")));
+                s.l(&format!("    raise({sig});"), Some(&m("raise")));
+                s.l("    a += 2;", Some(&m("post")));
+            }
+            Stmt::RaiseBurst => {
+                s.l("    sigmask(0, (1 << 9) | (1 << 11));", Some(&m("block")));
+                s.l("    raise(12);", Some(&m("raise2")));
+                s.l("    raise(10);", Some(&m("raise1")));
+                s.l("    sigmask(1, (1 << 9) | (1 << 11));", Some(&m("unblock")));
+                s.l("    a += 3;", Some(&m("post")));
+            }
         }
+    }
+    if signals {
+        s.l("    emit(hits());", Some("main.hits"));
     }
     s.l("    emit(a);", Some("main.emit"));
     s.l("    (a % 200) as i32", Some("main.ret"));
